@@ -9,6 +9,10 @@ def run(ctx):
     classes = eqhash.rule_H_EQSHAPE(ctx, st, cap)
     eqhash.rule_H_ORDER(ctx)
     eqhash.rule_H_HASH(ctx, st, classes)
+    # a description is turned into a value by the constructors: each new_X builds exactly variant X from its arguments (no normalisation such
+    # as double-negation elimination, seed c06-f), else "built from the same description" and "different constructors are unequal" fail
+    import maps as _m2
+    _m2.rule_M_CTOR(ctx)
     ctx.undecided = []
     ctx.assumptions = ["std Hash for String/usize/str/Box<T> is a function of the value", "DefaultHasher::new() uses fixed keys (deterministic)",
                        "equal components hash equally (induction hypothesis; base case = std types)"]
